@@ -149,7 +149,7 @@ def fam_kinds(E, kinds, real=False, pmax=2):
                 top.do(changer())
             top.do(owner())
 
-    out = simulate(root(), log=log)
+    out = simulate(root(), log=log, probe=Probe(check_clock=real != 'float'))
     bad = classify_run_exception(out.exc, allowed=())
     E.prove(bad is None, 'run-ends-normally', bad)
     if out.exc is not None:
@@ -191,7 +191,39 @@ def fam_kinds(E, kinds, real=False, pmax=2):
                 ('left at %r, slept %r, resumed at %r', ex[2], w, af[2]))
 
 
-def fam_nested(E, kinds=(MOMENT, AFTER, DELAY), real=False):
+def fam_float_until(E):
+    """IEEE double dates (z3 floating point): the block must end exactly at the date"""
+    e = E.float('e', 0.0, 50.0)
+    u = E.float('u', 0.0, 100.0)
+    moment = E.flag('moment')
+    log = Log()
+
+    async def owner():
+        await (time + e)
+        log('own', 'enter')
+        async with until((time == u) if moment else (time >= u)):
+            await eternity
+        log('own', 'exit')
+
+    out = simulate(owner(), log=log, probe=Probe(check_clock=False))
+    bad = classify_run_exception(out.exc, allowed=())
+    E.prove(bad is None, 'run-ends-normally', bad)
+    ent, ex = log.first('own', 'enter'), log.first('own', 'exit')
+    if not E.prove(ent is not None, 'entered'):
+        return
+    if GE(u, ent[2]):
+        E.reach('fires')
+        if E.prove(ex is not None, 'block-ends'):
+            E.prove(EQ(ex[2], u), 'block-ends-exactly-at-the-date',
+                    ('until(date %r) entered at %r ended at %r', u, ent[2], ex[2]))
+    elif moment:
+        E.reach('never-fires')
+        E.prove(ex is None, 'passed-moment-never-fires')
+    else:
+        E.prove(ex is not None and EQ(ex[2], ent[2]), 'already-true-ends-at-entry')
+
+
+def fam_nested(E, kinds=(MOMENT, AFTER, DELAY), real=False, shared=False):
     k1 = kinds[E.pick('k1', len(kinds))]
     k2 = kinds[E.pick('k2', len(kinds))]
     u1 = E.num('u1', 0, 30, real=real)
@@ -207,10 +239,13 @@ def fam_nested(E, kinds=(MOMENT, AFTER, DELAY), real=False):
 
     async def owner():
         await at_cp(e, 0)
+        n1 = notif(k1, u1)
+        # shared: both scopes listen on the very same notification object
+        n2 = n1 if shared else notif(k2, u2)
         try:
-            async with until(notif(k1, u1)):
+            async with until(n1):
                 try:
-                    async with until(notif(k2, u2)):
+                    async with until(n2):
                         await (time + b)
                         log('own', 'inner-body-end')
                 finally:
@@ -235,7 +270,7 @@ def fam_nested(E, kinds=(MOMENT, AFTER, DELAY), real=False):
         return
     E.prove(oe[3] is None, 'until-block-never-raises', ('%r', oe[3]))
     t1 = trigger_model(k1, e, u1, None)
-    t2 = trigger_model(k2, e, u2, None)
+    t2 = t1 if shared else trigger_model(k2, e, u2, None)
     Ti = e + b
     want_i = Ti
     for t in (t1, t2):
@@ -325,11 +360,19 @@ FAMILIES = [
            bounds='single until-block, 10 notification kinds'),
     Family('kinds_real', fam_kinds, thorough=dict(kinds=ALLK, real=True),
            bounds='as kinds, exact rational dates'),
+    Family('float_until', fam_float_until, quick=dict(), thorough=dict(),
+           reach=['fires', 'never-fires'],
+           bounds='IEEE double dates: until(time == u) / until(time >= u) entered at a float date'),
     Family('nested', fam_nested,
            quick=dict(),
            thorough=dict(),
            reach=['equal-deadlines', 'outer-first', 'inner-first', 'outer-never'],
            bounds='two nested until-blocks, kinds ==, >=, +'),
+    Family('nested_shared', fam_nested,
+           quick=dict(kinds=(MOMENT, AFTER), shared=True),
+           thorough=dict(kinds=(MOMENT, AFTER, DELAY), shared=True),
+           reach=['equal-deadlines', 'outer-never'],
+           bounds='two nested until-blocks on one and the same notification object'),
     Family('till', fam_till,
            quick=dict(ticker=False),
            thorough=dict(ticker=True),
